@@ -2492,6 +2492,20 @@ fn eval_string_concat(
     Ok(())
 }
 
+/// The values to push back when a call (or method call) fails, so
+/// resuming re-runs the call with the same receiver and arguments.
+///
+/// The value stack holds the receiver first, then the arguments with
+/// the first argument on top. `arg_values` is in popped order, first
+/// argument first.
+fn restore_values_for_call(receiver_value: &Value, arg_values: &[Value]) -> RestoreValues {
+    let mut saved_values = vec![receiver_value.clone()];
+    for value in arg_values.iter().rev() {
+        saved_values.push(value.clone());
+    }
+    RestoreValues(saved_values)
+}
+
 fn check_arity(
     fun_name: &SymbolName,
     receiver_value: &Value,
@@ -4719,7 +4733,8 @@ fn eval_call(
             expr_value_is_used,
             &caller_expr.position,
             session,
-        )?,
+        )
+        .map_err(|(_, e)| (restore_values_for_call(&receiver_value, &arg_values), e))?,
         Value_::EnumConstructor {
             type_name,
             variant_idx,
@@ -4758,12 +4773,6 @@ fn eval_call(
             }
         }
         _ => {
-            let mut saved_values = vec![];
-            for value in arg_values.iter().rev() {
-                saved_values.push(value.clone());
-            }
-            saved_values.push(receiver_value.clone());
-
             let message = format_type_error(
                 &TypeName {
                     text: "Function".into(),
@@ -4772,7 +4781,7 @@ fn eval_call(
                 env,
             );
             return Err((
-                RestoreValues(saved_values),
+                restore_values_for_call(&receiver_value, &arg_values),
                 EvalError::Exception(ExceptionInfo {
                     position: caller_expr.position.clone(),
                     message,
@@ -5083,7 +5092,8 @@ fn eval_method_call(
                 &arg_positions,
                 &arg_values,
                 expr_value_is_used,
-            )?;
+            )
+            .map_err(|(_, e)| (restore_values_for_call(&receiver_value, &arg_values), e))?;
             return Ok(None);
         }
         MethodKind::UserDefinedMethod(fun_info) => fun_info,
